@@ -386,3 +386,18 @@ PROPS["C17"] = {
     "counter_floors": {"quick": {"executions_matched": 300000, "statements_removed": 15000, "blocks_removed_or_merged": 3000, "assertions_lowered": 4000}},
     "assumptions": _FWD_ASSUME[:1] + ["the decompiler maps every statement of the transformed crab CFG back to the harness' representation (an unsupported statement is a harness failure, exit 2)"],
 }
+
+ENGINES[3]["serves_properties"] = ["C01", "C02", "C03", "C04", "C05", "C09", "C10", "C11", "C12", "C14", "C15", "C16", "C17", "C18"]
+PROPS["C15"] = {
+    "technique": "reference-model runtime monitor on programs over regions and references: the interpreter keeps a concrete memory (address = object*4096+offset, one address->value map per region, allocation site per reference); the real forward analyzer runs over the 7 region domains; loads are checked where they happen and reference queries at block entries",
+    "level_text": "generated CFGs (loops, branches) whose entry block initialises 2-3 integer regions and 3-5 references (null, fresh allocations with sites, aliases and fields through gep) and whose blocks contain stores, loads, re-allocations through the same variable, gep between references of a region, reference assumes/asserts (null, equality), ref_to_int, remove_ref and region_copy; random region_domain_params; after every region statement of every execution the abstract state recomputed from the reported invariant must not be bottom and after a load must contain the loaded value; at block entries a definite is_null_ref answer must agree with the concrete reference and a reported allocation-site set must contain the site of the object pointed to. Held on the executions run.",
+    "level_note": "reads of never-written cells and dereferences of dangling references are out of model (cut); null dereference stops the execution; int_to_ref (forged addresses), references stored inside regions and tags (get_tags needs tagging intrinsics) are not generated",
+    "rule": "a case is (region program, region domain, parameters); non-trivial as for C01; distinct = hash of program + configuration",
+    "jobs": {
+        "quick": [{"name": "regions", "bin": "crabv", "engine": "fwd", "cases": 4000, "params": {"dom": "regions", "focus": "regions"}, "shards": 64}],
+        "thorough": [{"name": "regions", "bin": "crabv", "engine": "fwd", "cases": 250000, "params": {"dom": "regions", "focus": "regions"}, "shards": 2048}],
+    },
+    "floor": {"quick": 1500, "thorough": 100000},
+    "counter_floors": {"quick": {"region_statement_checks": 100000, "region_loads_checked": 8000, "reference_definite_null_answers": 3000, "allocation_site_answers_checked": 15000}},
+    "assumptions": _FWD_ASSUME + ["every reference variable points into one fixed region for the whole program (the region passed to load/store/gep is that region, or the target of a region_copy)"],
+}
